@@ -275,6 +275,26 @@ def check_bridge(spec: dict) -> dict:
         got = location_bridges_origin(source)
     if bool(got) != want:
         raise Violation("bridges_origin", {"got": got, "constructed_spanning": want})
+    # the same question through the location's own method and through a feature with that location
+    # (wrap inside an exon or inside an intron alike)
+    from antismash.common.secmet.features import Feature
+    with code_under_test("bridges_total"):
+        by_method = source.crosses_origin()
+    if bool(by_method) != want:
+        raise Violation("crosses_origin_method", {"got": by_method, "constructed_spanning": want})
+    try:
+        feature = Feature(source, "misc_feature")
+    except ValueError:
+        feature = None
+    if feature is not None:
+        with code_under_test("bridges_total"):
+            by_feature = feature.crosses_origin()
+        if bool(by_feature) != want:
+            raise Violation("crosses_origin_feature", {"got": by_feature, "constructed_spanning": want})
+    if want and not any(part[0] == 0 for part in loc["parts"]):
+        classes_extra = ["origin_inside_an_intron"]
+    else:
+        classes_extra = []
     if want:
         with code_under_test("split_total"):
             lower, upper = split_origin_bridging_location(source)
@@ -288,7 +308,7 @@ def check_bridge(spec: dict) -> dict:
         if got_lower != want_lower or got_upper != want_upper:
             raise Violation("split_parts", {"lower": got_lower, "upper": got_upper,
                                             "want_lower": want_lower, "want_upper": want_upper})
-    return {"nontrivial": want or len(loc["parts"]) > 1, "classes": [f"kind_{loc.get('kind')}"]}
+    return {"nontrivial": want or len(loc["parts"]) > 1, "classes": [f"kind_{loc.get('kind')}"] + classes_extra}
 
 
 def _build_text_location(spec: dict):
